@@ -1,0 +1,14 @@
+//go:build verif
+
+package verifapi
+
+import "github.com/tidwall/tile38/internal/server"
+
+// JSONString is internal/server jsonString.
+func JSONString(s string) string { return server.VerifJSONString(s) }
+
+// AppendJSONString is internal/server appendJSONString.
+func AppendJSONString(b []byte, s string) []byte { return server.VerifAppendJSONString(b, s) }
+
+// AppendJSONFloat is internal/server appendJSONFloat.
+func AppendJSONFloat(b []byte, f float64) []byte { return server.VerifAppendJSONFloat(b, f) }
